@@ -1,6 +1,6 @@
 (* Helpers for the OCaml reader/printer glue (ocaml/expr_io.ml): numerals as digit lists, so
    that no OCaml int ever holds model data, and the class-name -> type-code lookup. *)
-From SE Require Export Expr.Cmp.
+From SE Require Export Expr.Wf.
 Local Open Scope N_scope.
 
 Definition N_of_digits (base : N) (ds : list N) : N := fold_left (fun a d => a * base + d) ds 0.
@@ -25,3 +25,5 @@ Definition tc_lookup (name : list N) : option N := tc_find name tc_table.
 Definition pool_hashes (l : list expr) : list N := map hash l.
 Definition pool_eq (l : list expr) : list (list bool) := map (fun a => map (expr_eqb a) l) l.
 Definition pool_cmp (l : list expr) : list (list Z) := map (fun a => map (expr_cmp a) l) l.
+(* which trees of a pool satisfy the hypotheses of the C01/C02 theorems *)
+Definition pool_wf (l : list expr) : list bool := map wf l.
